@@ -117,8 +117,8 @@ def check_case(case):
                 fail = "alt_eq: %r parsed to %r but %r parsed to %r" % (
                     alt, comps(a), desig, comps(b))
             elif a.get_is_in_weeks() or any(
-                    abs(getattr(a, u) - exp.get(u, 0)) > (1e-6 if dec and
-                                                          u == "seconds" else 0)
+                    abs(getattr(a, u) - exp.get(u, 0)) > (
+                        1e-9 if dec and u in UNITS[3:] else 0)
                     for u in UNITS):
                 fail = "alt_decode: %r parsed to %r, spelled %r" % (
                     alt, comps(a), exp)
@@ -239,13 +239,26 @@ def st_alt(draw):
         mi = draw(st.one_of(st.integers(0, 60), st.sampled_from([0, 60])))
         s = draw(st.one_of(st.integers(0, 60), st.sampled_from([0, 60])))
         sep = ":" if ext else ""
-        alt += "T%02d%s%02d%s%02d" % (h, sep, mi, sep, s)
+        tshape = draw(st.sampled_from(["hms", "hms", "hms", "hm", "h"]))
+        exp["hours"], exp["minutes"], exp["seconds"] = h, 0, 0
+        if tshape == "hms":
+            alt += "T%02d%s%02d%s%02d" % (h, sep, mi, sep, s)
+            exp["minutes"], exp["seconds"] = mi, s
+        elif tshape == "hm":
+            alt += "T%02d%s%02d" % (h, sep, mi)
+            exp["minutes"] = mi
+            shape += "/hhmm"
+        else:
+            alt += "T%02d" % h
+            shape += "/hh"
         if draw(st.sampled_from([False, False, True])):
+            # the decimal fraction sits on the last unit spelled
             frac = _short_decimal(draw)
             alt += draw(st.sampled_from([",", "."])) + frac
             shape += "/decimal"
-        exp["hours"], exp["minutes"] = h, mi
-        exp["seconds"] = float("%d.%s" % (s, frac)) if frac else s
+            unit = {"hms": "seconds", "hm": "minutes", "h": "hours"}[tshape]
+            exp[unit] = float("%d.%s" % (exp[unit], frac))
+        dec_unit = {"hms": "seconds", "hm": "minutes", "h": "hours"}[tshape]
     if not with_time and not ordinal and draw(st.integers(0, 3)) == 0:
         # reduced date-only spellings (year-month, year): accepted by the
         # library, so they must denote their designator spelling too
@@ -259,8 +272,11 @@ def st_alt(draw):
             shape = "alt/calendar/reduced/year"
     desig = "P%dY%dM%dD" % (exp["years"], exp.get("months", 0), exp["days"])
     if with_time:
-        secs = ("%d,%s" % (int(exp["seconds"]), frac)) if frac else "%d" % exp["seconds"]
-        desig += "T%dH%dM%sS" % (exp["hours"], exp["minutes"], secs)
+        def num(u):
+            if frac and u == dec_unit:
+                return "%d,%s" % (int(exp[u]), frac)
+            return "%d" % exp[u]
+        desig += "T%sH%sM%sS" % (num("hours"), num("minutes"), num("seconds"))
     return {"kind": "alt", "alt": alt, "desig": desig, "expect": exp,
             "shape": shape}
 
